@@ -114,6 +114,13 @@ def call_fn(geom, Vec, name, A, which, sc):
     if name == "rotaxis":
         a = float(sc[0])
         return ["v", canon_vec(geom.rotate_around_axis(A[0], A[1], a)), math.cos(a), math.sin(a)]
+    if name == "rot2d2":
+        a, b = float(sc[0]), float(sc[1])
+        return ["vs", [canon_vec(geom.rotate_2d(geom.rotate_2d(A[0], a), b)), canon_vec(geom.rotate_2d(A[0], a + b))]]
+    if name == "rotaxis2":
+        a, b = float(sc[0]), float(sc[1])
+        return ["vs", [canon_vec(geom.rotate_around_axis(geom.rotate_around_axis(A[0], A[1], a), A[1], b)),
+                       canon_vec(geom.rotate_around_axis(A[0], A[1], a + b))]]
     if name == "sign0":
         return ["s", canon_float(geom.sign0(float(sc[0])))]
     if name == "sign":
